@@ -372,6 +372,8 @@ def run_shard(shard, tier, acc):
 
 
 def replay(case, acc):
+    if "leak" in case:
+        return run_shard(("leak", 0), "quick", acc)
     if "case_keys" in case:
         return check_case_keys(acc)
     if "value" in case:
